@@ -118,6 +118,25 @@ Definition scale_bound (val adder scaler : option sv) (size : nat) (is_lower : b
            match scaler with Some s => v1 * sv_get s i | None => v1 end)
       (seq 0 size).
 
+(* _compute_scaled_bounds: the images of lower and upper; where the scaler is negative the order is
+   reversed, so the image of the upper bound becomes the lower bound (or -INF_BOUND when there is no
+   upper bound) and vice versa *)
+Definition is_neg (q : Q) : bool := negb (Qle_bool 0 q).
+
+Definition compute_scaled_bounds (lower upper adder scaler : option sv) (size : nat) : list Q * list Q :=
+  let lo := scale_bound lower adder scaler size true in
+  let hi := scale_bound upper adder scaler size false in
+  match scaler with
+  | None => (lo, hi)
+  | Some s =>
+      (mapi (fun k l => if is_neg (sv_get s k)
+                        then (let h := nth k hi 0 in if Qle_bool INF_BOUND h then - INF_BOUND else h)
+                        else l) lo,
+       mapi (fun k h => if is_neg (sv_get s k)
+                        then (let l := nth k lo 0 in if Qle_bool l (- INF_BOUND) then INF_BOUND else l)
+                        else h) hi)
+  end.
+
 (* ------------------------------------------------------------------ jacobians *)
 
 (* apply_jac_scaling on one block (rows = response elements, columns = design variable elements):
@@ -176,8 +195,8 @@ Definition voi_as (v : voi) : option (option sv * option sv) :=
 Definition vqs2 (m : list (list Q)) : val := VL (map vqs m).
 
 Definition v_bounds (v : voi) (a s : option sv) (size : nat) : val :=
-  VL [vqs (scale_bound (v_lower v) a s size true);
-      vqs (scale_bound (v_upper v) a s size false);
+  VL [vqs (fst (compute_scaled_bounds (v_lower v) (v_upper v) a s size));
+      vqs (snd (compute_scaled_bounds (v_lower v) (v_upper v) a s size));
       match v_equals v with
       | Some e => vqs (scale_bound (Some e) a s size false)
       | None => VN
